@@ -260,7 +260,7 @@ class Parser(object):
                     power = UNIT_PREFIXES[unit_element['prefix']]
                 except KeyError:
                     # Assume that prefix is an integer.
-                    power = '1e%s' % unit_element['prefix']
+                    power = '1e%d' % int(unit_element['prefix'])
                 expr = '(%s * %s)' % (expr, power)
 
             if 'exponent' in unit_element:
